@@ -221,7 +221,8 @@ func dischargeAll(ctxs []*Ctx, workdir string, secs int, requireAll bool, par in
 			again = append(again, j)
 		}
 	}
-	if len(again) == 0 || len(again) > 12 {
+	if len(again) == 0 || len(again) > 6 {
+		// many undecided obligations at once is not scheduling noise
 		return
 	}
 	sem2 := make(chan struct{}, 3)
